@@ -213,3 +213,41 @@ def runFiles (pf vf : Nat) (mode : Mode) (filename : Bytes) : List BCmd → File
       | none => none
 
 end Vore
+
+namespace Vore
+
+/-- one command over the listed files, in order (the inner loop of `RunFiles`) -/
+def runFilesCmd (pf vf : Nat) (mode : Mode) (c : BCmd) : List Bytes → FileSys → Option (Res (List Match × FileSys))
+  | [], fs => some (.ok ([], fs))
+  | f :: rest, fs =>
+    match fs.get f with
+    | none => some (.panic "stat: no such file")
+    | some text =>
+      match searchFile pf vf mode fs f text c with
+      | some (.ok (ms, fs1)) =>
+        match runFilesCmd pf vf mode c rest fs1 with
+        | some (.ok (more, fs2)) => some (.ok (ms ++ more, fs2))
+        | some (.panic t) => some (.panic t)
+        | some .pfuel => some .pfuel
+        | none => none
+      | some (.panic t) => some (.panic t)
+      | some .pfuel => some .pfuel
+      | none => none
+
+/-- `RunFiles(bytecode, filenames, mode, false)` for regular files: commands outermost, every command
+visits every listed path (a path listed twice is visited twice) and opens it afresh -/
+def runFilesL (pf vf : Nat) (mode : Mode) (files : List Bytes) : List BCmd → FileSys → Option (Res (List Match × FileSys))
+  | [], fs => some (.ok ([], fs))
+  | c :: cs, fs =>
+    match runFilesCmd pf vf mode c files fs with
+    | some (.ok (ms, fs1)) =>
+      match runFilesL pf vf mode files cs fs1 with
+      | some (.ok (rest, fs2)) => some (.ok (ms ++ rest, fs2))
+      | some (.panic t) => some (.panic t)
+      | some .pfuel => some .pfuel
+      | none => none
+    | some (.panic t) => some (.panic t)
+    | some .pfuel => some .pfuel
+    | none => none
+
+end Vore
